@@ -68,6 +68,8 @@ var orderContracts = map[string]orderContract{
 	// func getPrevPos(totalRows uint8, cached, deleted, toDestroy []uint64, numAdds uint16, numLeaves uint64)
 	// (reached from genTTLs with the recorded deletions of a block, kept in the prover's order)
 	"getPrevPos": {[]fieldOC{nil, {"": OC{ocBuilt, "cached"}}, {"": raw("D")}, {"": OC{ocBuilt, "toDestroy"}}}},
+	// Prune(hashes []Hash)
+	"(*MapPollard).Prune": {[]fieldOC{nil, {"": raw("H")}}},
 	// Prove(hashes []Hash)
 	"(*Pollard).Prove":    {[]fieldOC{nil, {"": raw("H")}}},
 	"(*MapPollard).Prove": {[]fieldOC{nil, {"": raw("H")}}},
@@ -93,6 +95,9 @@ func seedOrderEntry(it *oInterp, p *Program, fn *ssa.Function, st *OState) []*OV
 		case *types.Slice:
 			a := it.arr("tok:"+label, par.Name())
 			st.cls[a] = csOf(classFor(i, "", label))
+			if isPositionSlice(par.Type()) {
+				st.crd[a] = crdTree
+			}
 			av = ovArr(a)
 		case *types.Struct:
 			for f := 0; f < u.NumFields(); f++ {
@@ -102,6 +107,9 @@ func seedOrderEntry(it *oInterp, p *Program, fn *ssa.Function, st *OState) []*OV
 				fnm := u.Field(f).Name()
 				a := it.arr("tok:"+label+"."+fnm, par.Name()+"."+fnm)
 				st.cls[a] = csOf(classFor(i, fnm, label+"."+fnm))
+				if isPositionSlice(u.Field(f).Type()) {
+					st.crd[a] = crdTree
+				}
 				av.ensure(fmt.Sprintf(".%d", f)).join(ovArr(a))
 			}
 		case *types.Pointer:
@@ -120,6 +128,9 @@ func seedOrderEntry(it *oInterp, p *Program, fn *ssa.Function, st *OState) []*OV
 				fnm := sty.Field(f).Name()
 				a := it.arr("tok:"+label+"."+fnm, par.Name()+"."+fnm)
 				st.cls[a] = csOf(classFor(i, fnm, label+"."+fnm))
+				if isPositionSlice(sty.Field(f).Type()) {
+					st.crd[a] = crdTree
+				}
 				content.ensure(fmt.Sprintf(".%d", f)).join(ovArr(a))
 			}
 			st.mem[c] = content
@@ -282,7 +293,7 @@ func pairVerdict(a, b ClassSet) (ok bool, undecided bool, why string) {
 }
 
 type orderRules struct {
-	pair, sink, output string
+	pair, sink, output, coord string
 }
 
 // reportOrderEvents turns the engine's events into obligations.
@@ -300,7 +311,8 @@ func reportOrderEvents(p *Program, r *Report, or *orderRun, rules orderRules) (n
 	}
 	pairs := map[string]*agg{}
 	sinks := map[string]*agg{}
-	var pk, sk []string
+	coords := map[string]*agg{}
+	var pk, sk, ck []string
 	for _, e := range or.it.events {
 		switch e.Kind {
 		case oevPair, oevIndexPar:
@@ -356,6 +368,25 @@ func reportOrderEvents(p *Program, r *Report, or *orderRun, rules orderRules) (n
 			} else {
 				a.okWhy = "argument classes " + e.A.String() + ": never the caller's order"
 			}
+		case oevCoord:
+			if rules.coord == "" {
+				continue
+			}
+			key := siteKey(p, e.In, e.What)
+			a := coords[key]
+			if a == nil {
+				a = &agg{key: key, pos: posOf(p, e.In)}
+				coords[key] = a
+				ck = append(ck, key)
+			}
+			a.n++
+			if !e.Have.compatible(e.Need) {
+				if a.bad == nil {
+					a.bad, a.whyBad = e, fmt.Sprintf("%s may be in the %s layout but %s works in the %s layout: positions are read in the wrong coordinate system", e.NameA, (e.Have &^ (e.Need | crdBoth)).String(), e.What, e.Need.String())
+				}
+			} else {
+				a.okWhy = fmt.Sprintf("%s is in the %s layout, as %s needs (%s)", e.NameA, e.Have.String(), e.What, e.Need.String())
+			}
 		case oevUndecided:
 			rule := rules.pair
 			if rule == "" {
@@ -400,6 +431,16 @@ func reportOrderEvents(p *Program, r *Report, or *orderRun, rules orderRules) (n
 			r.Discharge(rules.sink, k, a.pos, fmt.Sprintf("%s (in %d context(s))", a.okWhy, a.n), true)
 		}
 	}
+	sort.Strings(ck)
+	for _, k := range ck {
+		a := coords[k]
+		if a.bad != nil {
+			r.Violate(rules.coord, k, a.pos, a.whyBad, a.bad.Stack...)
+		} else {
+			r.Discharge(rules.coord, k, a.pos, fmt.Sprintf("%s (in %d context(s))", a.okWhy, a.n), true)
+		}
+	}
+	r.Stats["coord_sites"] = len(ck)
 	return len(pk), len(sk)
 }
 
@@ -556,7 +597,8 @@ func runC14(p *Program, r *Report) {
 	r.Rule("R14c", "COVERAGE-GATE: proof restriction returns success only behind the test that every wanted target is covered, whose failing edge returns an error")
 	r.Rule("R14d", "OUTPUT-ORDER: proof restriction returns hashes and targets in the order of the request")
 	or := runOrderEngine(p, r, "R14a", c14Entries)
-	nPair, nSink := reportOrderEvents(p, r, or, orderRules{pair: "R14a", sink: "R14b"})
+	r.Rule("R14e", "LAYOUT: positions are handed to position arithmetic, to the proof-position function and to the node store only in the coordinate system (tree layout vs the map forest's TotalRows layout) that the accompanying forest height denotes")
+	nPair, nSink := reportOrderEvents(p, r, or, orderRules{pair: "R14a", sink: "R14b", coord: "R14e"})
 	r.Floor("R14a", "pairing sites reached from the entries", nPair, 18)
 	r.Floor("R14b", "requires-sorted call sites reached from the entries", nSink, 40)
 	checkOutputs(p, r, or, "R14d", map[string][]outSpec{
@@ -699,6 +741,32 @@ func flowsFrom(v ssa.Value, pred func(ssa.Value) bool, depth int, seen map[ssa.V
 		return flowsFrom(x.X, pred, depth+1, seen)
 	case *ssa.Field:
 		return flowsFrom(x.X, pred, depth+1, seen)
+	case *ssa.FieldAddr:
+		if al, ok := x.X.(*ssa.Alloc); ok {
+			for _, ref := range *al.Referrers() {
+				switch rr := ref.(type) {
+				case *ssa.Store:
+					if rr.Addr == al && flowsFrom(rr.Val, pred, depth+1, seen) {
+						return true
+					}
+				case *ssa.FieldAddr:
+					if rr.Field != x.Field {
+						continue
+					}
+					for _, r2 := range *rr.Referrers() {
+						if st, ok := r2.(*ssa.Store); ok && st.Addr == rr && flowsFrom(st.Val, pred, depth+1, seen) {
+							return true
+						}
+					}
+				}
+			}
+			return false
+		}
+		return flowsFrom(x.X, pred, depth+1, seen)
+	case *ssa.BinOp:
+		return flowsFrom(x.X, pred, depth+1, seen) || flowsFrom(x.Y, pred, depth+1, seen)
+	case *ssa.Convert:
+		return flowsFrom(x.X, pred, depth+1, seen)
 	}
 	return false
 }
@@ -726,7 +794,8 @@ func runC05(p *Program, r *Report) {
 	r.Rule("R05b", "PROOF-HASH NON-INTERFERENCE: neither forest's block application reads the proof hashes (trailing or non-canonical proof hashes cannot influence the forests)")
 	r.Rule("R05c", "PHASE-ORDER: all three implementations delete before they add")
 	or := runOrderEngine(p, r, "R05a", c05Entries)
-	nPair, nSink := reportOrderEvents(p, r, or, orderRules{pair: "R05a", sink: "R05a"})
+	r.Rule("R05d", "LAYOUT: in verification (with remembering), block application and undo, positions are used only in the coordinate system (tree layout vs TotalRows layout) that the accompanying forest height denotes")
+	nPair, nSink := reportOrderEvents(p, r, or, orderRules{pair: "R05a", sink: "R05a", coord: "R05d"})
 	r.Floor("R05a", "pairing and requires-sorted sites reached from the block-application entries", nPair+nSink, 14)
 
 	// R05b: field-read scan over the reach of both Modify implementations
@@ -800,7 +869,8 @@ func runC02(p *Program, r *Report) {
 	r.Rule("R02b", "SORTED-TO-PROOFPOS: the positions handed to the proof-position function are a sorted copy, never the request order")
 	r.Rule("R02c", "NO-SILENT-HOLE: a prover that cannot read a needed hash returns an error, never a proof with a hole")
 	or := runOrderEngine(p, r, "R02a", c02Entries)
-	_, nSink := reportOrderEvents(p, r, or, orderRules{pair: "R02b", sink: "R02b"})
+	r.Rule("R02d", "LAYOUT: the provers compute proof positions in the layout of the forest height they pass along, and the map forest returns its targets in the tree layout")
+	_, nSink := reportOrderEvents(p, r, or, orderRules{pair: "R02b", sink: "R02b", coord: "R02d"})
 	r.Floor("R02b", "requires-sorted call sites in the provers", nSink, 2)
 	specs := map[string][]outSpec{}
 	for _, n := range c02Entries {
